@@ -219,8 +219,15 @@ class NumpyBackendProvider(BackendProvider):
             except ValueError:
                 arr = [x.tolist() if self.is_array(x) else x for x in a]
                 arr = self._np.asarray(arr, dtype=object)
-            arr = self._np.asarray(
-                [self.kg_asarray(x) if isinstance(x, list) else x for x in arr],
-                dtype=object
-            )
+            if arr.ndim > 1:
+                # a rectangular list of mixed rows: lists nested inside the rows are still Python
+                # lists; turn them into arrays in place (the outer shape is kept)
+                for idx in self._np.ndindex(arr.shape):
+                    if isinstance(arr[idx], list):
+                        arr[idx] = self.kg_asarray(arr[idx])
+            else:
+                arr = self._np.asarray(
+                    [self.kg_asarray(x) if isinstance(x, list) else x for x in arr],
+                    dtype=object
+                )
         return arr
